@@ -994,6 +994,9 @@ ZV_HEADER = ("From Coq Require Import List ZArith Bool.\nImport ListNotations.\n
              "From QV Require Import Model.C11_zvode.\nOpen Scope Z_scope.\n")
 
 
+_ZSNAP = [0]
+
+
 def run_zvode_impl(case):
     """Drive a real IntegratorScipyAdams / BDF (real zvode) through set_state /
     mcstep; returns the observations and the oracle (internal time reached by
@@ -1006,18 +1009,29 @@ def run_zvode_impl(case):
     y0 = basis(3, 0).data
     views, oracle, bad = [], [], []
     t0 = None
-    concrete = []
+    concrete, model_t = [], []
+    start_last = None       # ode time at the start of the last successful mcstep
     for op in case["ops"]:
         f0 = getattr(I, "_front", 0.0)
+        t_start = float(I._ode_solver.t)
         if op[0] == "rel":
             # target chosen relative to the window the object holds now
             b0 = getattr(I, "_back", 0.0)
             b0 = b0 if isinstance(b0, (int, float)) else 0.0
             kind, x = op[1], op[2]
+            cur_t = float(I._ode_solver.t)
+            p_t = start_last if start_last is not None else cur_t
             tt = {"in": b0 + x * (f0 - b0), "front": f0, "beyond": f0 + x,
-                  "behind": b0 - x, "same": float(I._ode_solver.t)}[kind]
+                  "behind": b0 - x, "same": cur_t,
+                  "prev": p_t + x * (cur_t - p_t)}[kind]
             op = ["mc", float(tt)]
         concrete.append(op)
+        mt = float(op[1])
+        if op[0] == "mc" and isinstance(f0, float) and mt != f0 and \
+                abs(mt - f0) <= 256 * np.spacing(abs(f0)):
+            mt = float(f0)      # same canonicalisation for a target in the fuzz
+            _ZSNAP[0] += 1
+        model_t.append(mt)
         raised, tout = False, None
         try:
             if op[0] == "set":
@@ -1036,12 +1050,34 @@ def run_zvode_impl(case):
             raised = True
             if "behind the integration limit" not in str(e) and "not initialted" not in str(e):
                 bad.append("zvode-failure: mcstep(%r) raised %s" % (op[1], str(e)[:60]))
+            elif (t0 is not None and start_last is not None
+                  and min(start_last, t_start) <= float(op[1]) <= t_start):
+                # Integrator.mcstep: a time between the start of the last call
+                # and now can be asked for
+                bad.append("reachable-time-refused: mcstep(%r) raised although the last call "
+                           "started at %r and the object is at %r" % (op[1], start_last, t_start))
         except AttributeError:
             raised = True
         ot = float(I._ode_solver.t)
+        if op[0] == "set":
+            start_last = None
+        elif not raised:
+            start_last = t_start
         if tout is None:
             tout = ot
         front = getattr(I, "_front", 0.0)
+        # VODE: when a step is cut to land on tcrit, tn + h can miss tcrit by
+        # roundoff; it then returns T = tcrit exactly while rwork[12] keeps tn
+        # (test |tn - tcrit| <= 100 uround (|tn| + |h|)).  Such times are
+        # canonicalised to rwork[12] (= _front) and counted.
+        for nm in ("ot", "tout"):
+            xv = ot if nm == "ot" else tout
+            if xv != front and abs(xv - front) <= 256 * np.spacing(abs(front)):
+                _ZSNAP[0] += 1
+                if nm == "ot":
+                    ot = front
+                else:
+                    tout = front
         back = getattr(I, "_back", 0.0)
         if not isinstance(back, (int, float)):
             back = 0.0          # Integrator.__init__ default (inf, None): not set yet
@@ -1052,6 +1088,7 @@ def run_zvode_impl(case):
             bad.append("front-is-not-tcur: _front=%r rwork[12]=%r" % (
                 front, float(I._ode_solver._integrator.rwork[12])))
     case["ops"] = concrete          # resolved targets: what a replay re-runs
+    case["_model_t"] = model_t
     return views, oracle, bad
 
 
@@ -1072,8 +1109,10 @@ def gen_zvode_case(rng):
                 ops.append(["rel", "front", 0])
             elif r < 0.8:
                 ops.append(["rel", "same", 0])
-            elif r < 0.9:
+            elif r < 0.86:
                 ops.append(["rel", "behind", rng.choice([1e-4, 0.5])])
+            elif r < 0.95:
+                ops.append(["rel", "prev", rng.choice([0.0, 0.0, 0.5])])
             else:
                 t = t + rng.randint(1, 10) / 16.0
                 ops.append(["mc", t])
@@ -1092,7 +1131,8 @@ def zvode_part(ctx, rng, only=None):
     runs, exprs, scs = [], [], []
     for c in cases:
         views, oracle, bad = run_zvode_impl(c)
-        vals_ = [op[1] for op in c["ops"]] + list(oracle)
+        mts = c.pop("_model_t")
+        vals_ = [op[1] for op in c["ops"]] + list(oracle) + list(mts)
         for v in views:
             vals_ += [v[1], v[3], v[4], v[5]]
         den = 1
@@ -1100,8 +1140,8 @@ def zvode_part(ctx, rng, only=None):
             den = max(den, Fraction(float(x)).denominator)
         sc = (lambda d: (lambda x: int(Fraction(float(x)) * d)))(den)
         ops = ["ZSet %s" % cz(sc(op[1])) if op[0] == "set"
-               else "ZMc %s %s" % (cz(sc(op[1])), cz(sc(o)))
-               for op, o in zip(c["ops"], oracle)]
+               else "ZMc %s %s" % (cz(sc(mt)), cz(sc(o)))
+               for op, o, mt in zip(c["ops"], oracle, mts)]
         exprs.append("z_trace z_new %s" % clist(ops))
         runs.append((views, oracle, bad))
         scs.append(sc)
@@ -1112,7 +1152,8 @@ def zvode_part(ctx, rng, only=None):
                       {"log": str(e)}, found_input=False)
         return
     agree = 0
-    for c, (views, oracle, bad), sc, v in zip(cases, runs, scs, vals):
+    for c, (views, oracle, bad), sc, v in sorted(zip(cases, runs, scs, vals),
+                                                key=lambda z: 0 if z[1][2] else 1):
         model = [(x[0], x[1], x[2][0], x[2][1], x[2][2], x[2][3])
                  for x in vlib.parse_coq_value(v)]
         im = [(a, sc(b), d, sc(e), sc(f), sc(g)) for a, b, d, e, f, g in views]
@@ -1133,7 +1174,8 @@ def zvode_part(ctx, rng, only=None):
                        "impl": [list(map(str, x)) for x in im[first:first + 1]],
                        "model": [list(map(str, x)) for x in model[first:first + 1]]},
                       found_input=bool(bad))
-    ctx.cov["zvode_agreement"] = {"cases": len(cases), "agree": agree}
+    ctx.cov["zvode_agreement"] = {"cases": len(cases), "agree": agree,
+                                  "roundoff_times_canonicalised": _ZSNAP[0]}
     ctx.sample({"zvode_case": cases[0], "impl_views": [list(map(str, x)) for x in runs[0][0][:4]]})
 
 
@@ -1486,6 +1528,13 @@ def run(ctx):
         "integrate); step-size control, error estimate and dense output are an oracle "
         "(the observed window fronts are fed to the model); TOO_MUCH_WORK / DT_UNDERFLOW "
         "paths are modelled only as 'stop with a negative status'",
+        "Model/C11_krylov.v (IntegratorKrylov _prepare / set_state / integrate) and "
+        "Model/C11_zvode.v (IntegratorScipyAdams/BDF set_state / mcstep) are hand-written; "
+        "Lanczos size, step bound and propagation (krylov; the bound is rounded down to 1/64 "
+        "by the recording wrapper) and zvode's internal time after a step are oracles fed "
+        "from the observed run; zvode enters by its documented contract (interpolation within "
+        "one step behind tcur, itask 5 takes one step not beyond tcrit); times VODE returns as tcrit "
+        "within its 100-uround fuzz of rwork[12] are canonicalised to rwork[12] (counted in the evidence)",
         "fresh-vs-reused bitwise comparisons of real solvers are an implementation-level "
         "oracle (not a proof obligation); SciPy/LAPACK internals are outside; for krylov "
         "with krylov_dim < dimension the comparison is a validation with tolerance "
